@@ -276,7 +276,9 @@ Classify(r) ==
           /\ (\/ r.shape = 0 /\ r.stages[1].t = "none" /\ r.stages[2].t = "none"
               \/ r.shape = 1 /\ r.stages[2].t = "none" /\ r.stages[3].t = "none"
               \/ r.shape = 2 /\ r.stages[1].t = "none" /\ r.stages[2].t = "none")
-          /\ (\A q \in 1..Len(r.o) : r.o[q] = r.o[1]) /\ r.o[1] # 0 /\ r.o[1] % 777 = 0 THEN "C19-chain-empty"
+          \* (a later processor then works on the empty temporary image instead: all zero)
+          /\ (\A q \in 1..Len(r.o) : r.o[q] = r.o[1])
+          /\ (IF r.shape = 2 THEN r.o[1] = 0 ELSE r.o[1] # 0 /\ r.o[1] % 777 = 0) THEN "C19-chain-empty"
   \* a chain that contains a median stage with a non-zero radius inherits C19-median-border
   \* (the composition itself must be right: the chain gives what the stages give one after the other)
   ELSE IF r.e = "CHAIN" /\ ChainComposes(r) /\ (\E i \in 1..Len(r.stages) : r.stages[i].t = "median" /\ r.stages[i].r # <<0, 0, 0>>) THEN "C19-median-border"
